@@ -13,6 +13,7 @@ open RV.C14
 #print axioms skolem_roundtrip_partial
 #print axioms deskolemize_one_map
 #print axioms skolem_roundtrip_stateful_partial
+#print axioms skolem_roundtrip_subset_partial
 #print axioms skolem_roundtrip_external
 #print axioms simpleUrl_contract
 #print axioms skolem_roundtrip_witness
